@@ -392,6 +392,7 @@ def run(prop, tier):
         for k in range(K):
             p = dict(payload)
             p["tmp"] = os.path.join(tmp, "hs%d" % k)
+            p["repeat"] = k < 4         # the first four child interpreters also repeat every case in-process
             payloads.append(p)
         outs = lib.run_driver_parallel("drive_cleaner.py", payloads, hashseeds=list(range(K)), timeout=2400)
         traces = []
@@ -504,7 +505,7 @@ def replay(prop, path):
     else:
         K = 16 if rp.get("tier", "quick") == "quick" else 64
         case["paths"] = ["content", "filterprovider" if any(sp["sp"].get("allow") for sp in case["content"]) else "provider"]
-        outs = lib.run_driver_parallel("drive_cleaner.py", [dict(mode="runs", cases=[case], seed=seed,
+        outs = lib.run_driver_parallel("drive_cleaner.py", [dict(mode="runs", cases=[case], seed=seed, repeat=k < 4,
                                                                  tmp=os.path.join(tmp, "hs%d" % k)) for k in range(K)],
                                        hashseeds=list(range(K)))
         ids, events = {}, []
